@@ -16,7 +16,10 @@ RULE = (
     'cases = one kernel call (direct or through convert(target=energy_transfer)) on neutrons simulated '
     'forward: (Ei, Ef, L1, L2) log-uniform over 1e-3..1e4 meV / 0.1..1e3 m, t = L1/v(Ei) + L2/v(Ef) rounded to '
     'the tof dtype, plus unphysical times below t0 and a boundary sextuple {t0-2ulp..t0+2ulp, 2 t0} built '
-    'from the t0 the code itself computed (observed); distinct = (kernel, energy unit, tof unit, length '
+    'from the t0 the code itself computed (observed); plus convert() judged on what it returns: the tof '
+    'coordinate as bin edges (N+1) or points, common 1-d / per-pixel 2-d / single spectrum, dense / binned '
+    'events next to dense edges / tof-major data / Dataset, ascending and descending, with values below, '
+    'exactly at (+-1, 2 ulp) and above the observed t0; distinct = (kernel, energy unit, tof unit, length '
     'units, dtype class, layout, energy decade) signatures'
 )
 ASSUMPTIONS = [
@@ -62,6 +65,7 @@ class Monitors:
         self.last_t0 = None
         self.last_args = None
         self.boundary = None  # (t0 values aligned to tof) for the boundary call
+        self.convert_kind = None  # geometry of the data the workload hands to convert()
 
     def t0(self, ev):
         if ev.exc is None:
@@ -72,94 +76,146 @@ class Monitors:
         name = f'energy_transfer_{kind}_from_tof'
 
         def h(ev):
-            ctx = self.ctx
             self.last_args = ev.args
             case = {'kernel': name, **self.meta, 'args': {k: describe(v) for k, v in ev.args.items()}}
             if ev.exc is not None:
-                ctx.violation('raised', f'{name} raised {type(ev.exc).__name__}: {ev.exc}', case, kernel=kind)
+                self.ctx.violation('raised', f'{name} raised {type(ev.exc).__name__}: {ev.exc}', case, kernel=kind)
                 return
-            try:
-                a = ev.args
-                res = ev.result
-                tof, en = a['tof'], a[en_name]
-                f32_cls = ops.elem_dtype(tof) == sc.DType.float32 and ops.elem_dtype(en) == sc.DType.float32
-                # precision class of the result (documented: single iff tof AND energy are single)
-                any32 = f32_cls
-                eps = _eps(any32)
-                S = {n: ops.align(a[n], res).astype(si.LD) * si.factor(ops.elem_unit(a[n]))
-                     for n in ('tof', 'L1', 'L2', en_name)}
-                t0, dE, other = definition(kind, S['tof'], S['L1'], S['L2'], S[en_name])
-                fe = si.factor(ops.elem_unit(en))
-                got = ops.result_values(res)
-                gotl = got.astype(si.LD)
-                t = S['tof']
-                valid = (np.isfinite(t.astype(np.float64)) & np.isfinite(S['L1'].astype(np.float64))
-                         & np.isfinite(S['L2'].astype(np.float64)) & np.isfinite(S[en_name].astype(np.float64))
-                         & (S[en_name] > 0))
-                n_invalid = int(valid.size - np.count_nonzero(valid))
-                if n_invalid:
-                    ctx.count('elements with non-finite inputs (not judged)', n_invalid)
-                with np.errstate(invalid='ignore'):
-                    band = 8 * eps * np.maximum(np.abs(t), t0)
-                    below = valid & (t < t0 - band)
-                    above = valid & (t > t0 + band)
-                with np.errstate(divide='ignore', invalid='ignore'):
-                    cond = t / (t - t0)
-                    # 1e-11: accuracy floor of the unit-converted constants (scipp's to_unit; cf. the bound C01 states)
-                    tol = (64 * eps + FLOOR) * np.maximum(np.abs(S[en_name]), np.abs(other)) * np.abs(cond) / fe
-            except Exception:  # noqa: BLE001
-                ctx.oracle_error(name)
-                return
-            ctx.event(name)
-            want_dtype = sc.DType.float32 if f32_cls else sc.DType.float64
-            if ops.elem_unit(res) != ops.elem_unit(en):
-                ctx.violation('unit', f'{name}: result unit {ops.elem_unit(res)}, supplied energy in '
-                              f'{ops.elem_unit(en)}', case, kernel=kind)
-                return
-            if ops.elem_dtype(res) != want_dtype:
-                ctx.violation('dtype', f'{name}: dtype {ops.elem_dtype(res)} expected {want_dtype}', case,
-                              kernel=kind)
-                return
-            if np.any(np.isinf(got[valid])):
-                ctx.violation('infinite', f'{name}: infinite result for finite inputs', case, kernel=kind,
-                              boundary=self.boundary is not None)
-                return
-            if self.boundary is not None:
-                # second stage: tof placed around the t0 the code computed itself
-                t0c = ops.align(self.boundary, res)
-                tv = ops.align(tof, res)
-                okb = np.isfinite(t0c)  # a dead pixel has no boundary
-                must_nan = tv <= np.where(okb, t0c, 0)
-                ctx.count('boundary_points', int(np.count_nonzero(okb)))
-                wrong = okb & (np.isnan(got) != must_nan)
-                if np.any(wrong):
-                    i = int(np.argmax(wrong))
-                    ctx.violation('nan_boundary', f'{name}: tof {np.ravel(tv)[i]!r} vs t0 {np.ravel(t0c)[i]!r}: '
-                                  f'result {np.ravel(got)[i]!r}', case, kernel=kind,
-                                  at_t0=bool(np.ravel(tv)[i] == np.ravel(t0c)[i]))
-                return
-            nb, na = int(np.count_nonzero(below)), int(np.count_nonzero(above))
-            ctx.count('decided:below t0', nb)
-            ctx.count('decided:above t0', na)
-            ctx.count('undecided:within 8 ulp of t0', int(np.count_nonzero(valid) - nb - na))
-            if np.any(~np.isnan(got[below])):
-                ctx.violation('not_nan_below_t0', f'{name}: finite result for arrival before the fixed leg '
-                              'could be flown', case, kernel=kind)
-                return
-            if np.any(np.isnan(got[above])):
-                ctx.violation('nan_above_t0', f'{name}: NaN for a physical arrival time', case, kernel=kind)
-                return
-            if na:
-                frac = np.abs(gotl[above] - (dE[above] / fe)) / tol[above]
-                worst = float(np.max(frac))
-                ctx.dev(f'{kind}.{"f32" if any32 else "f64"}: error as fraction of bound (64 eps + 1e-11) max(E) t/(t-t0)', worst)
-                if worst > 1:
-                    i = int(np.argmax(frac))
-                    ctx.violation('value', f'{name}: energy transfer off by {worst:.3g} x the bound '
-                                  f'(64 eps + 1e-11) max(E) t/(t-t0)',
-                                  dict(case, got=repr(gotl[above][i]), expected=repr((dE[above] / fe)[i])),
-                                  kernel=kind)
+            self.judge(name, kind, {n: ev.args[n] for n in ('tof', 'L1', 'L2', en_name)}, ev.result, case)
         return h
+
+    def convert_result(self, ev):
+        """What the user sees: the energy_transfer coordinate(s) of the object convert() returned, judged
+        against the origin coordinate(s) and the supplied L1 / L2 / fixed energy of the object passed in
+        (dense coordinate - bin edges or points - and event coordinate, each on its own)."""
+        a = ev.args
+        kind = self.convert_kind
+        if ev.exc is not None or kind is None or a.get('origin') != 'tof' or a.get('target') != 'energy_transfer':
+            return  # an exception is reported by the caller (convert_raised)
+        ctx = self.ctx
+        data, out = a['data'], ev.result
+        en_name = 'incident_energy' if kind == 'direct' else 'final_energy'
+        try:
+            sup = {n: data.coords[n] for n in ('L1', 'L2', en_name)}
+            # transform_coords renames dimensions, never reorders them
+            back = {o: d for o, d in zip(out.dims, data.dims, strict=True) if o != d}
+            todo = []
+            if 'tof' in data.coords:
+                tof = data.coords['tof']
+                edges = any(tof.sizes[d] == data.sizes[d] + 1 for d in tof.dims)
+                todo.append(('dense-edges' if edges else 'dense-points', tof, out.coords))
+            if isinstance(data, sc.DataArray) and data.bins is not None and 'tof' in data.bins.coords:
+                todo.append(('events', data.bins.coords['tof'], out.bins.coords))
+        except Exception:  # noqa: BLE001
+            ctx.oracle_error('convert_result')
+            return
+        for cls, tof, got_coords in todo:
+            at = 'convert:' + cls
+            case = {'observed': 'result of convert', 'coordinate': cls, **self.meta,
+                    'args': {'tof': describe(tof), **{k: describe(v) for k, v in sup.items()}}}
+            if 'energy_transfer' not in got_coords:
+                ctx.violation('convert_no_target', f'convert returned without energy_transfer ({cls})', case, at=at)
+                continue
+            try:
+                res = got_coords['energy_transfer']
+                ren = {o: d for o, d in back.items() if o in res.dims}
+                if ren:
+                    res = res.rename_dims(ren)
+            except Exception:  # noqa: BLE001
+                ctx.oracle_error('convert_result')
+                continue
+            self.judge(f'convert(tof -> energy_transfer, {kind}) {cls}', kind, {'tof': tof, **sup}, res, case,
+                       at=at, event='convert_result:' + cls, pre='result:')
+
+    def judge(self, name, kind, a, res, case, at='kernel', event=None, pre=''):
+        """One observed (operands, result) pair against the definition; used for kernel returns (at='kernel')
+        and for the coordinates of the object convert() returned (at='convert:...')."""
+        ctx = self.ctx
+        en_name = 'incident_energy' if kind == 'direct' else 'final_energy'
+        on_result = at != 'kernel'
+        try:
+            tof, en = a['tof'], a[en_name]
+            f32_cls = ops.elem_dtype(tof) == sc.DType.float32 and ops.elem_dtype(en) == sc.DType.float32
+            # precision class of the result (documented: single iff tof AND energy are single)
+            any32 = f32_cls
+            eps = _eps(any32)
+            S = {n: ops.align(a[n], res).astype(si.LD) * si.factor(ops.elem_unit(a[n]))
+                 for n in ('tof', 'L1', 'L2', en_name)}
+            t0, dE, other = definition(kind, S['tof'], S['L1'], S['L2'], S[en_name])
+            fe = si.factor(ops.elem_unit(en))
+            got = ops.result_values(res)
+            gotl = got.astype(si.LD)
+            t = S['tof']
+            valid = (np.isfinite(t.astype(np.float64)) & np.isfinite(S['L1'].astype(np.float64))
+                     & np.isfinite(S['L2'].astype(np.float64)) & np.isfinite(S[en_name].astype(np.float64))
+                     & (S[en_name] > 0))
+            n_invalid = int(valid.size - np.count_nonzero(valid))
+            if n_invalid:
+                ctx.count(pre + 'elements with non-finite inputs (not judged)', n_invalid)
+            with np.errstate(invalid='ignore'):
+                band = 8 * eps * np.maximum(np.abs(t), t0)
+                below = valid & (t < t0 - band)
+                above = valid & (t > t0 + band)
+            with np.errstate(divide='ignore', invalid='ignore'):
+                cond = t / (t - t0)
+                # 1e-11: accuracy floor of the unit-converted constants (scipp's to_unit; cf. the bound C01 states)
+                tol = (64 * eps + FLOOR) * np.maximum(np.abs(S[en_name]), np.abs(other)) * np.abs(cond) / fe
+        except Exception:  # noqa: BLE001
+            ctx.oracle_error(name)
+            return
+        ctx.event(event or name)
+        keys = {'kernel': kind} if not on_result else {'kernel': kind, 'at': at}
+        want_dtype = sc.DType.float32 if f32_cls else sc.DType.float64
+        if ops.elem_unit(res) != ops.elem_unit(en):
+            ctx.violation('unit', f'{name}: result unit {ops.elem_unit(res)}, supplied energy in '
+                          f'{ops.elem_unit(en)}', case, **keys)
+            return
+        if ops.elem_dtype(res) != want_dtype:
+            ctx.violation('dtype', f'{name}: dtype {ops.elem_dtype(res)} expected {want_dtype}', case, **keys)
+            return
+        if np.any(np.isinf(got[valid])):
+            ctx.violation('infinite', f'{name}: infinite result for finite inputs', case,
+                          boundary=self.boundary is not None, **keys)
+            return
+        if self.boundary is not None:
+            # second stage: tof placed around the t0 the code computed itself
+            t0c = ops.align(self.boundary, res)
+            tv = ops.align(tof, res)
+            okb = np.isfinite(t0c)  # a dead pixel has no boundary
+            must_nan = tv <= np.where(okb, t0c, 0)
+            ctx.count(pre + 'boundary_points', int(np.count_nonzero(okb)))
+            if on_result:
+                ctx.count(pre + 'points exactly at the observed t0', int(np.count_nonzero(okb & (tv == t0c))))
+            wrong = okb & (np.isnan(got) != must_nan)
+            if np.any(wrong):
+                i = int(np.argmax(wrong))
+                ctx.violation('nan_boundary', f'{name}: tof {np.ravel(tv)[i]!r} vs t0 {np.ravel(t0c)[i]!r}: '
+                              f'result {np.ravel(got)[i]!r}', case,
+                              at_t0=bool(np.ravel(tv)[i] == np.ravel(t0c)[i]), **keys)
+                return
+            if not on_result:
+                return
+        nb, na = int(np.count_nonzero(below)), int(np.count_nonzero(above))
+        ctx.count(pre + 'decided:below t0', nb)
+        ctx.count(pre + 'decided:above t0', na)
+        ctx.count(pre + 'undecided:within 8 ulp of t0', int(np.count_nonzero(valid) - nb - na))
+        if np.any(~np.isnan(got[below])):
+            ctx.violation('not_nan_below_t0', f'{name}: finite result for arrival before the fixed leg '
+                          'could be flown', case, **keys)
+            return
+        if np.any(np.isnan(got[above])):
+            ctx.violation('nan_above_t0', f'{name}: NaN for a physical arrival time', case, **keys)
+            return
+        if na:
+            frac = np.abs(gotl[above] - (dE[above] / fe)) / tol[above]
+            worst = float(np.max(frac))
+            ctx.dev(f'{pre}{kind}.{"f32" if any32 else "f64"}: error as fraction of bound (64 eps + 1e-11) max(E) t/(t-t0)', worst)
+            if worst > 1:
+                i = int(np.argmax(frac))
+                ctx.violation('value', f'{name}: energy transfer off by {worst:.3g} x the bound '
+                              f'(64 eps + 1e-11) max(E) t/(t-t0)',
+                              dict(case, got=repr(gotl[above][i]), expected=repr((dE[above] / fe)[i])),
+                              **keys)
 
 
 # ------------------------------------------------------------ generator ---
@@ -360,6 +416,8 @@ def insitu(rng, ctx, scn, kind, mon=None, i=0):
     # positions that contradict the supplied L1/L2 (the real flight path of an indirect spectrometer is not the
     # straight line): the supplied lengths must win, also when an earlier conversion already consumed them
     npx = kw['L2'].sizes.get('pixel', 1)
+    if mon is not None:
+        mon.convert_kind = kind
     two_step = mon is not None and 'pixel' in kw['L2'].dims and rng.random() < 0.5
     if two_step:
         da.coords['source_position'] = sc.vector([0.0, 0.0, -3.0], unit='m')
@@ -384,22 +442,172 @@ def insitu(rng, ctx, scn, kind, mon=None, i=0):
     return ('convert', *sig)
 
 
+# ---------------------------------------------- what convert() hands back ---
+# Every way scipp lets the origin coordinate sit on the data: bin edges (N+1 values for N bins) or points,
+# one coordinate for all pixels or one row per pixel, a single spectrum, data stored tof-major, a Dataset,
+# and binned events that carry their own tof next to the dense edge coordinate.
+RESULT_CLASSES = (
+    ('edges', 'common 1-d', 'dense'),
+    ('edges', 'per-pixel 2-d', 'dense'),
+    ('edges', 'single spectrum', 'dense'),
+    ('points', 'common 1-d', 'dense'),
+    ('points', 'per-pixel 2-d', 'dense'),
+    ('points', 'single spectrum', 'dense'),
+    ('edges', 'common 1-d', 'binned events'),
+    ('edges', 'per-pixel 2-d', 'binned events'),
+    ('edges', 'per-pixel 2-d', 'tof-major data'),
+    ('edges', 'common 1-d', 'dataset'),
+    ('points', 'per-pixel 2-d', 'dataset'),
+)
+PROBE_UNITS = (('meV', 'us', 'm', 'm'), ('meV', 'us', 'm', 'm'), ('eV', 'ms', 'm', 'cm'), ('ueV', 'ns', 'mm', 'm'),
+               ('J', 's', 'km', 'm'), ('meV', 'ms', 'cm', 'mm'))
+
+
+def result_class_name(c):
+    return 'convert result: tof ' + ', '.join(c)
+
+
+def _convert(ctx, scn, mon, da):
+    try:
+        scn.convert(da, 'tof', 'energy_transfer', scatter=True)
+    except Exception as e:  # noqa: BLE001  no exception is allowed for finite-or-NaN inputs of a known geometry
+        ctx.violation('convert_raised', f'convert raised {type(e).__name__}: {e}', dict(mon.meta),
+                      family='convert result')
+        return False
+    return True
+
+
+def result_probe(rng, ctx, scn, mon, kind, j):
+    """convert(..., 'tof', 'energy_transfer') judged on what it returns.
+
+    Stage 1 converts the simulated arrival times as a per-pixel point coordinate; the t0 helper is observed.
+    Stage 2 puts, into the coordinate layout of the class, per row: a negative time, zero, a time inside the
+    fixed leg, {t0-2ulp .. t0+2ulp, 2 t0} of the observed t0, and the simulated arrival times, in ascending
+    order (a histogram's edges; every third pass in descending order)."""
+    cls = RESULT_CLASSES[(j // 2) % len(RESULT_CLASSES)]
+    coordkind, shape, container = cls
+    f32 = (j // (2 * len(RESULT_CLASSES))) % 3 == 2
+    units = ('meV', 'us', 'm', 'm') if f32 else PROBE_UNITS[int(rng.integers(0, len(PROBE_UNITS)))]
+    kw = None
+    for _attempt in range(20):
+        kw, sig = gen(rng, ctx, kind, '2d', f32, units)
+        if kw is not None:
+            break
+    if kw is None:
+        ctx.count('result probe: no input inside the float32 domain')
+        return None
+    en = 'incident_energy' if kind == 'direct' else 'final_energy'
+    tof = kw['tof']
+    npix, nt = tof.shape
+    mon.convert_kind = kind
+    mon.meta = {'family': 'convert result', 'class': list(cls), 'units': list(units), 'f32': f32,
+                'order': 'descending' if (j // (2 * len(RESULT_CLASSES))) % 3 == 1 else 'ascending'}
+    # stage 1
+    mon.last_t0 = None
+    da1 = sc.DataArray(sc.ones(dims=tof.dims, shape=tof.shape, unit='counts'),
+                       coords={'tof': tof, 'L1': kw['L1'], 'L2': kw['L2'], en: kw[en]})
+    if not _convert(ctx, scn, mon, da1):
+        return None
+    t0 = mon.last_t0
+    if t0 is None or t0.unit != tof.unit or not set(t0.dims) <= {'pixel'}:
+        ctx.count('result probe: no usable t0 observed')
+        return None
+    exact = t0.dtype == tof.dtype and tof.dtype in (sc.DType.float64, sc.DType.float32)
+    npt = (np.float64 if tof.dtype == sc.DType.float64 else np.float32 if tof.dtype == sc.DType.float32 else np.int64)
+    fl = npt if exact else np.float64
+    t0v = np.broadcast_to(np.asarray(t0.values).astype(fl), (npix,)).copy()
+    t0c = np.where(np.isfinite(t0v), t0v, fl(500.0))  # dead pixel: no boundary, any time will do
+    inf = fl(np.inf)
+    dn1, up1 = np.nextafter(t0c, -inf), np.nextafter(t0c, inf)
+    cols = [-t0c * fl(rng.uniform(0.01, 3.0)), np.zeros_like(t0c), t0c * fl(rng.uniform(0.05, 0.999)),
+            np.nextafter(dn1, -inf), dn1, t0c, up1, np.nextafter(up1, inf), 2 * t0c]
+    tv = np.asarray(tof.values)
+    with np.errstate(invalid='ignore'):
+        rows = np.concatenate([np.stack(cols, axis=-1).astype(np.float64), tv.astype(np.float64)], axis=1)
+        rows = np.rint(rows).astype(npt) if npt is np.int64 else rows.astype(npt)
+    rows = np.sort(rows, axis=1)
+    descending = (j // (2 * len(RESULT_CLASSES))) % 3 == 1
+    if descending:  # scipp accepts edges in either monotonic order
+        rows = rows[:, ::-1].copy()
+        ctx.hit('convert result: coordinate in descending order')
+    nrow = rows.shape[1]
+    n = nrow - 1 if coordkind == 'edges' else nrow
+    ut = tof.unit
+    single = shape == 'single spectrum'
+    if shape == 'per-pixel 2-d':
+        coord = sc.array(dims=['pixel', 'tof'], values=rows, unit=ut, dtype=tof.dtype)
+    else:
+        coord = sc.array(dims=['tof'], values=rows[0], unit=ut, dtype=tof.dtype)
+    sup = {'L1': kw['L1'], 'L2': kw['L2'], en: kw[en]}
+    if single:
+        sup = {k: (v['pixel', 0].copy() if 'pixel' in v.dims else v) for k, v in sup.items()}
+    ddims, dshape = (['tof'], [n]) if single else (['pixel', 'tof'], [npix, n])
+    if container == 'binned events':
+        # events of a bin sit on its left edge (inclusive) or in its middle: events exactly at t0 exist
+        lo = rows[:, :-1] if shape == 'per-pixel 2-d' else np.broadcast_to(rows[0, :-1], (npix, n))
+        hi = rows[:, 1:] if shape == 'per-pixel 2-d' else np.broadcast_to(rows[0, 1:], (npix, n))
+        mid = ((lo // 2 + hi // 2) if npt is np.int64 else (lo + (hi - lo) / 2)).astype(npt)
+        sizes = rng.integers(0, 3, size=(npix, n))
+        vals = []
+        for p in range(npix):
+            for b in range(n):
+                k = int(sizes[p, b])
+                if k:
+                    vals.append(np.where(rng.random(k) < 0.6, lo[p, b], mid[p, b]))
+        vals = np.concatenate(vals) if vals else np.zeros(0)
+        end = np.cumsum(sizes.ravel()).reshape(npix, n)
+        evs = sc.DataArray(sc.ones(dims=['event'], shape=[int(sizes.sum())], unit='counts'),
+                           coords={'tof': sc.array(dims=['event'], values=vals.astype(npt), unit=ut, dtype=tof.dtype)})
+        data = sc.bins(begin=sc.array(dims=ddims, values=end - sizes, unit=None, dtype='int64'),
+                       end=sc.array(dims=ddims, values=end, unit=None, dtype='int64'), dim='event', data=evs)
+    else:
+        data = sc.ones(dims=ddims, shape=dshape, unit='counts')
+    da = sc.DataArray(data, coords={'tof': coord, **sup})
+    if container == 'tof-major data':
+        da = da.transpose(['tof', 'pixel']).copy()
+    elif container == 'dataset':
+        da = sc.Dataset({'sample': da, 'vanadium': da * sc.scalar(2.0)})
+    try:
+        if exact:
+            mon.boundary = t0['pixel', 0].copy() if (single and 'pixel' in t0.dims) else t0
+        if not _convert(ctx, scn, mon, da):
+            return None
+    finally:
+        mon.boundary = None
+    ctx.hit(result_class_name(cls))
+    if exact:
+        ctx.hit('convert result: coordinate value exactly at the observed t0')
+    else:
+        ctx.count('result probe: tof not in the dtype of t0 (no exact boundary; 8-ulp band only)')
+    dec = sig[-1]
+    return ('convert result', kind, *cls, *units, str(tof.dtype), dec)
+
+
+
 LAYOUTS = ['scalar', '2d', 'binned', 'common_tof']
 
 
 def plan(tier, seed):
     n = 16
-    return [{'cases': 1000 if tier == 'quick' else 20000, 'insitu': 60 if tier == 'quick' else 1500}
+    return [{'cases': 1000 if tier == 'quick' else 20000, 'insitu': 60 if tier == 'quick' else 1500,
+             'result_probes': 66 if tier == 'quick' else 1320}
             for _ in range(n)]
 
 
 def requirements(tier):
-    return {'events': {'energy_transfer_direct_from_tof': 100, 'energy_transfer_indirect_from_tof': 100},
+    return {'events': {'energy_transfer_direct_from_tof': 100, 'energy_transfer_indirect_from_tof': 100,
+                       'convert_result:dense-edges': 200, 'convert_result:dense-points': 200,
+                       'convert_result:events': 100},
             'forced': ['tof below t0', 'boundary sextuple', 'per-pixel L1',
                        'float32 with extreme units inside the domain', 'dead pixel (NaN fixed-leg input)']
-            + ['convert input: ' + a for a in ALIGNMENT_STATES],
+            + ['convert input: ' + a for a in ALIGNMENT_STATES]
+            + [result_class_name(c) for c in RESULT_CLASSES]
+            + ['convert result: coordinate value exactly at the observed t0',
+               'convert result: coordinate in descending order'],
             'counters': {'boundary_points': 500, 'decided:below t0': 200, 'decided:above t0': 2000,
-                         'convert_calls': 10},
+                         'convert_calls': 10, 'result:boundary_points': 2000,
+                         'result:points exactly at the observed t0': 200,
+                         'result:decided:below t0': 1000, 'result:decided:above t0': 2000},
             }
 
 
@@ -413,6 +621,7 @@ def run(shard, ctx):
     tr.watch(K._energy_transfer_t0, '_energy_transfer_t0', on_return=mon.t0)
     tr.watch(K.energy_transfer_direct_from_tof, 'direct', on_return=mon.kernel('direct'))
     tr.watch(K.energy_transfer_indirect_from_tof, 'indirect', on_return=mon.kernel('indirect'))
+    tr.watch(scn.convert, 'convert', on_return=mon.convert_result)
     with tr:
         for i in range(shard['cases']):
             kind = 'direct' if i % 2 == 0 else 'indirect'
@@ -456,14 +665,26 @@ def run(shard, ctx):
                 ctx.count('convert_calls')
             except Exception as e:  # noqa: BLE001
                 ctx.violation('convert_raised', f'convert raised {type(e).__name__}: {e}', {'family': 'convert'})
+        for j in range(shard.get('result_probes', 0)):
+            try:
+                sig = result_probe(rng, ctx, scn, mon, 'direct' if j % 2 == 0 else 'indirect', j)
+                if sig is not None:
+                    ctx.case(sig)
+                    ctx.count('convert_result_probes')
+            except Exception:  # noqa: BLE001  the harness itself (convert's exceptions are judged in _convert)
+                ctx.oracle_error('result_probe')
+            finally:
+                mon.boundary = None
 
 
-TECHNIQUE = ('runtime monitors (sys.monitoring) on both inelastic kernels and the t0 helper; forward flight-time '
-             'simulation of neutrons as reference; NaN-boundary probe built from the observed t0')
+TECHNIQUE = ('runtime monitors (sys.monitoring) on both inelastic kernels, the t0 helper and the object convert() '
+             'returns; forward flight-time simulation of neutrons as reference; NaN-boundary probe built from the '
+             'observed t0')
 LEVEL_TEXT = ('exploration: neutrons are simulated forward (Ei, Ef, L1, L2 -> arrival time) and every observed '
               'kernel return (direct, indirect, through convert) must give Ei-Ef in the supplied energy unit within '
               'the conditioning bound 64 eps max(E) t/(t-t0); NaN/finite is decided on both sides of t0 (8-ulp '
               'undecided band) and exactly at, 1 and 2 ulp around the t0 the code itself computed; no infinity '
-              'anywhere. Sampled inputs, not a proof.')
+              'anywhere. The same judgement is applied to the energy_transfer coordinates (dense bin edges / points '
+              'and event coordinate) of every object convert() returned. Sampled inputs, not a proof.')
 LEVEL_NOTE = 'trusted: numpy long double, independent SI table, scipp containers, m_n from scipp.constants'
 DESIGN_REF = 'DESIGN.md section 4, C05'
